@@ -103,6 +103,7 @@ type w1Case struct {
 	noLogs   bool
 	state    bool // compare Device.State() after every step
 	monitor  bool // only the byte-level monitor judges the run (configurations outside the reference model)
+	burst    bool // key-only script fed in bursts against a slow consumer; whole-stream comparison at sync points
 }
 
 type w1Exec struct {
@@ -152,6 +153,11 @@ func execW1(t *testing.T, seed uint64, c *w1Case, cfg config.Config, script []mo
 			done = true
 			doneMu.Unlock()
 		})
+		brng := simrt.NewRng(seed, "burst")
+		slowUs := 0
+		if c.burst {
+			slowUs = []int{0, 20, 200, 2000}[brng.Intn(4)]
+		}
 		simrt.Go("collector", func() {
 			for {
 				ev, ok := simrt.Recv(out)
@@ -159,6 +165,9 @@ func execW1(t *testing.T, seed uint64, c *w1Case, cfg config.Config, script []mo
 					return
 				}
 				col.add(ev)
+				if slowUs > 0 {
+					simrt.Sleep(time.Duration(slowUs) * time.Microsecond)
+				}
 			}
 		})
 		sigStop := make(chan struct{})
@@ -194,6 +203,45 @@ func execW1(t *testing.T, seed uint64, c *w1Case, cfg config.Config, script []mo
 			return ms
 		}
 		simrt.WaitIdle()
+		if c.burst {
+			var all []model.Msg
+			i := 0
+			for i < len(script) && ex.vio == nil {
+				n := brng.Range(1, 12)
+				for j := 0; j < n && i < len(script); j, i = j+1, i+1 {
+					if script[i].Kind != "key" {
+						continue
+					}
+					simrt.Send(in, toInputEvent(handlers, script[i]))
+					m.Predict(script[i])
+				}
+				// let everything drain (the consumer may be slow)
+				for k := 0; k < 2000; k++ {
+					simrt.WaitIdle()
+					raw, _ := col.take()
+					ms := decode(raw, i)
+					for _, g := range ms {
+						m.Recv.Apply(g)
+					}
+					all = append(all, ms...)
+					if len(all) >= len(m.Predicted) || slowUs == 0 {
+						break
+					}
+					simrt.Sleep(time.Duration(slowUs*4+50) * time.Microsecond)
+				}
+				if ex.vio != nil {
+					break
+				}
+				if at, why := model.CompareStream(m.Predicted, all); at >= 0 {
+					props := []string{prop}
+					if m.PanicSeen && prop != "C13" {
+						props = append(props, "C13")
+					}
+					fail(i, &model.Violation{Props: props, Clause: "stream_mismatch", Detail: fmt.Sprintf("events fed in bursts against a consumer taking %dus per message: %s", slowUs, why)})
+				}
+			}
+			script = nil // fed
+		}
 		for i, ev := range script {
 			switch ev.Kind {
 			case "key", "abs":
